@@ -1,8 +1,8 @@
 HOOKS = {
     'guard': 'cfg(kani)',
-    'enable': 'cargo kani (sets --cfg kani); Verus units need no hook, they read the source text',
+    'enable': 'cargo kani (sets --cfg kani for every workspace crate); Verus units need no hook, they read the source text. Hooks: eight `#[cfg(kani)] #[path="/verif/kani/harness/<unit>.rs"] mod verif_kani;` lines, one `#[cfg(kani)] pub use`, and check-cfg lint entries in keyberon/Cargo.toml and parser/Cargo.toml',
     'baseline_off_cmd': 'cd /repo && cargo test --workspace --no-fail-fast --offline',
-    'source_commits': [],
+    'source_commits': ['cae388d', 'e85c665'],
     'add_only': True,
 }
 NOTES = ('exit 0 = all obligations discharged; exit 1 = a named obligation got a verifier verdict of failure (VIOLATION line); '
